@@ -689,3 +689,56 @@ def spec_selftest(items, scratch, tier):
         dis.append({"shard_errors": errs[:1]})
     return {"oracle": "io.BytesIO of the running interpreter", "compared": len(sitems),
             "calls": sum(len(c["ops"]) for c in cases), "disagreements": dis}
+
+
+# ---------------------------------------------------------------------------
+# TIE BY REGENERATION: the file interface of ArMember (read, readline, readlines, seek, tell) is regenerated from
+# lib/debian/arfile.py into coq/Gen/TrArMember.v on every run (harness/py2coq.py, METHOD MODE: the private
+# attributes are threaded as state); coq/Ar/Tie.v proves each regenerated method equal to the model's
+# `member_op` on ALL states, file contents and handle positions; statements in coq/Props/C06Tie.v.
+from harness import py2coq as _P   # noqa: E402
+
+_FH = ("coq", "fileh")
+_ST = [("self.__fp", "s_fp", ("option", _FH)), ("self.__fname", "s_fname", ("option", "str")),
+       ("self.__offset", "s_off", "Z"), ("self.__end", "s_end", "Z"), ("self.__cur", "s_cur", "Z")]
+_GH = [("k", ("coq", "fkind")), ("d", "str")]      # ghost: kind of the underlying file object, bytes of the archive
+
+
+def _m(coq, name, params, ret, **kw):
+    return _P.Fun(coq, "ArMember." + name, params, ret, skip_first=True, state=_ST, ghost=_GH, **kw)
+
+
+_readline_self = _P.Call("tr_readline", [("option", "Z")], "str")
+_readline_self.selfmethod = "ArMember.readline"
+
+TR_MODULE = _P.Module(
+    "TrArMember", "lib/debian/arfile.py",
+    funs=[
+        _m("tr_read", "read", [("size", "Z")], "str", locals={"buf": "str"}),
+        # read() without argument: the default of `size` is taken from the source
+        _m("tr_read_noarg", "read", [], "str", locals={"size": "Z", "buf": "str"}),
+        _m("tr_readline", "readline", [("size", ("option", "Z"))], "str", locals={"remaining": "Z", "buf": "str"}),
+        _m("tr_readlines", "readlines", [("sizehint", "Z")], ("list", "str"),
+           locals={"buf": ("option", "str"), "lines": ("list", "str")}, fuel={1: "S (length d)"}),
+        _m("tr_seek", "seek", [("offset", "Z"), ("whence", "Z")], "unit"),
+        _m("tr_tell", "tell", [], "Z"),
+    ],
+    calls={
+        "open": _P.Call("trp_open", [("option", "str"), ("literal", "'rb'", "tt")], _FH, True),
+        "<fileh>.seek": _P.Call("trp_fseek k", [_FH, "Z"], "Z", True, mutates=True),
+        "<fileh>.read": _P.Call("trp_fread d", [_FH, "Z"], "str", mutates=True),
+        "<fileh>.readline": _P.Call("trp_freadline d", [_FH, ("option", "Z")], "str", mutates=True),
+        "<fileh>.tell": _P.Call("trp_ftell", [_FH], "Z"),
+        "self.readline": _readline_self,
+    },
+    imports=["Ar.Ops", "Ar.Model", "Ar.TrPrims"])
+# flow typing: in readlines `buf = None` then `buf = self.readline()`: `not buf` is the emptiness test of bytes
+TR_MODULE.funs[3].narrow = True
+
+
+@extract.register("TrArMember")
+def _gen_tr(repo):
+    return _P.translate_module(repo, TR_MODULE)
+
+
+TIE_FILE = "Props/C06Tie.v"
